@@ -168,8 +168,32 @@ theorem inline_nonfinal_deadlocks (cap : Nat) (hcap : 1 ≤ cap) (input : List B
       | zero => simp [act, stepAt, headAct, spawnOK, c2, d2, catSpec, St.isStarted, St.isExited] at h
       | succ p => simp [act, stepAt, stepAt_nil] at h
 
-/-- total bytes in flight -/
-private def inFlight (cells : List Cell) : Nat := (cells.map (·.buf.length)).sum
+private theorem inflight_steps (cap : Nat) (s t : State) (h : Steps cap s t) :
+    inFlight t.cells ≤ inFlight s.cells := by
+  induction h with
+  | refl => exact Nat.le_refl _
+  | tail _ hstep ih =>
+    obtain ⟨p, n, h⟩ := hstep
+    simp only [act, Option.map_eq_some_iff] at h
+    obtain ⟨r, hr, rfl⟩ := h
+    exact Nat.le_trans (stepAt_inFlight cap n p true true _ _ r hr) ih
+
+/-- **A payload that fits in one pipe never blocks**, however the stages are started (inline
+stages anywhere) and whatever they do. -/
+theorem small_payload_never_stuck (cap : Nat) (specs : List Spec) (input : List Byte)
+    (hfit : input.length ≤ cap) (s : State) (hreach : Steps cap (init specs input) s) : ¬ Stuck cap s := by
+  intro ⟨hnd, hns⟩
+  have hfl : inFlight s.cells ≤ cap :=
+    Nat.le_trans (inflight_steps cap _ _ hreach) (Nat.le_trans (inFlight_mkCells specs input) hfit)
+  rcases progress_room cap s.out s.cells true true hfl with ⟨p, h⟩ | h | h
+  · obtain ⟨s', hs'⟩ := step_of_isSome cap p s h
+    exact hns s' hs'
+  · exact hnd h
+  · cases hc : s.cells with
+    | nil => rw [hc] at h; cases h
+    | cons c cs =>
+      rw [hc] at h
+      rcases h with ⟨h, _⟩ | ⟨h, _⟩ <;> cases h
 
 /-- the unguarded liveness statement: no pipeline ever deadlocks -/
 def pipeline_live_full : Prop :=
@@ -181,13 +205,23 @@ theorem pipeline_live_full_cex : ¬ pipeline_live_full := by
   obtain ⟨s, hs, hstuck⟩ := inline_nonfinal_deadlocks 1 (by decide) [1, 2] (by decide)
   exact h 1 (by decide) _ _ s hs hstuck
 
-/-- **Liveness under the guard** "every stage that is not last is started concurrently": for all
-stage behaviours, payloads, capacities and schedules the pipeline terminates and never deadlocks. -/
+/-- **Liveness under the guard** "every stage that is not last is started concurrently, or the
+payload fits in one pipe": for all stage behaviours, payloads, capacities and schedules the
+pipeline terminates and never deadlocks. -/
 theorem pipeline_live_partial (cap : Nat) (hcap : 1 ≤ cap) (specs : List Spec) (input : List Byte)
-    (hguard : NonFinalConcurrent specs) :
+    (hguard : NonFinalConcurrent specs ∨ input.length ≤ cap) :
     WellFounded (fun s' s : State => Step cap s s') ∧
-    ∀ s, Steps cap (init specs input) s → ¬ Stuck cap s :=
-  ⟨every_schedule_terminates cap, fun s h => concurrent_never_stuck cap hcap specs hguard input s h⟩
+    ∀ s, Steps cap (init specs input) s → ¬ Stuck cap s := by
+  refine ⟨every_schedule_terminates cap, fun s h => ?_⟩
+  rcases hguard with hg | hg
+  · exact concurrent_never_stuck cap hcap specs hg input s h
+  · exact small_payload_never_stuck cap specs input hg s h
+
+/-- non-vacuity of the second disjunct: `{ cat; } | ( tr ) | cat` (inline stages that are not last)
+with 3 bytes and capacity 4 -/
+example : (¬ NonFinalConcurrent [catSpec true, trSpec true, catSpec false]) ∧ [1, 2, 3].length ≤ 4 ∧
+    isDone (run 4 7 true 100 (init [catSpec true, trSpec true, catSpec false] [97, 98, 10])) = true := by
+  refine ⟨fun h => by simp [catSpec] at h; exact absurd h.1 (by decide), by decide, by decide⟩
 
 /-- non-vacuity of the guard with an early-exit reader and a reader that never reads:
 `cat F | head -c 1 | :`  -/
